@@ -7,16 +7,31 @@
     This file:
       1. what validity forces on a message (the walker is not vacuously permissive) + rejected
          near-misses (one length octet off) as Examples;
-      2. validity of everything the modelled constructors return [Ok]:
-         NOTIFICATION, KEEPALIVE, ROUTE-REFRESH (model/YMsg.v), IPv4 prefix lists with and
-         without add-path (model/YPrefix4.v), and ten of the standard attributes one at a time
-         (model/YAttr.v: ORIGIN, AS_PATH, NEXT_HOP, MED, LOCAL_PREF, ATOMIC_AGGREGATE, AGGREGATOR,
-         COMMUNITIES, ORIGINATOR_ID, CLUSTER_LIST).
+      2. validity of everything the modelled constructors return [Ok], for ALL inputs:
+         NOTIFICATION, KEEPALIVE, ROUTE-REFRESH (model/YMsg.v);
+      3. IPv4 prefix lists with and without add-path (model/YPrefix4.v) and the twelve standard
+         attributes one at a time (model/YAttr.v: ORIGIN, AS_PATH, NEXT_HOP, MED, LOCAL_PREF,
+         ATOMIC_AGGREGATE, AGGREGATOR, COMMUNITIES, ORIGINATOR_ID, CLUSTER_LIST, EXTENDED COMMUNITIES,
+         LARGE COMMUNITIES);
+      4. OPEN (model/YOpen.v): every field value, every capability configuration; every reference
+         OPEN of spec/RefOpen.v;
+      5. the whole UPDATE (model/YUpdate.v): attribute blocks with different type codes make a valid
+         attribute field, valid sections make a valid message iff it fits 4096 octets, and
+         Update.construct itself (valid iff not longer than 4096 octets, which it never checks);
+      6. MP_REACH_NLRI / MP_UNREACH_NLRI of IPv6 unicast, VPNv4/6, labeled unicast v4/v6, IPv4 flow
+         specification (model/YMp.v + YPrefix6 / YVpn / YLu / YFlow4), each under the exact field
+         ranges (boolean guards) with a refuting witness where the code does not enforce the range;
+      7. COMMUNITIES / EXTENDED / LARGE COMMUNITIES built from API text (model/YCommunity.v,
+         YExtCom.v, YLargeCom.v).
+    Helper lemmas: proof/WalkerProofs.v, WalkerOpen.v, WalkerUpdate.v, WalkerMp.v, WalkerFlow.v,
+    WalkerCom.v.
     NOT proved here (checked by running this same walker on the implementation's real output,
-    harness/props/c08.py): OPEN (model/YOpen.v exists), EXTENDED / LARGE COMMUNITIES, the
-    assembly of several attributes and sections into one UPDATE (model/YUpdate.v), and every
-    constructor without a model (MP families, tunnel encapsulation, SR-TE, PMSI, IPv6 flowspec). *)
-From YV Require Import lib.Base gen.Consts spec.Walker model.YMsg model.YPrefix4 model.YAttr proof.WalkerProofs.
+    harness/props/c08.py): constructors without a model (EVPN, SR-TE policy, IPv6 flow
+    specification, tunnel encapsulation, PMSI tunnel), an UPDATE that carries MP attributes next to
+    the twelve standard ones (C08_attr_blocks_valid + C08_update_assembly say what is needed, but
+    model/YUpdate.v's dispatch has no MP branch), add-path UPDATEs as a whole. *)
+From YV Require Import lib.Base gen.Consts spec.Walker spec.RefOpen model.YMsg model.YPrefix4 model.YAttr model.YOpen
+  model.YUpdate proof.WalkerProofs proof.WalkerOpen proof.WalkerUpdate.
 
 (* ------------------------------------------------------------------------------------- *)
 (** * 1. the walker means something *)
@@ -228,3 +243,325 @@ Example C08_aspath_nonvacuous :
   construct_aspath false [(2, [65001; 65002])] = Ok [64; 2; 6; 2; 2; 253; 233; 253; 234] /\
   (exists b, construct_aspath true [(2, repeat 7 64)] = Ok (80 :: 2 :: 1 :: 2 :: b)).
 Proof. vm_compute. split; [reflexivity | eexists; reflexivity]. Qed.
+
+(** EXTENDED COMMUNITIES (8 octets each, not empty) and LARGE COMMUNITIES (a non-zero multiple of 12) *)
+Theorem C08_ext_large_community_valid : forall c,
+  (forall l b, construct_extcommunity l = Ok b -> valid_attrs c b = true) /\
+  (forall l b, construct_largecommunity l = Ok b -> valid_attrs c b = true).
+Proof. exact ext_large_valid. Qed.
+Print Assumptions C08_ext_large_community_valid.
+Example C08_ext_large_nonvacuous :
+  construct_extcommunity [(2, [65001; 100]); (1537, [1; 1000])] =
+    Ok [192; 16; 16; 0; 2; 253; 233; 0; 0; 0; 100; 6; 1; 1; 0; 0; 0; 62; 129] /\
+  construct_largecommunity [[4294967295; 0; 7]] = Ok [224; 32; 12; 255; 255; 255; 255; 0; 0; 0; 0; 0; 0; 0; 7] /\
+  construct_largecommunity [] = Err c_ERR_MSG_UPDATE c_ERR_MSG_UPDATE_ATTR_LEN.
+Proof. vm_compute. auto. Qed.
+
+(* ------------------------------------------------------------------------------------- *)
+(** * 4. OPEN *)
+
+(** Open.construct, for EVERY version, AS number, hold time, identifier and capability
+    configuration (families, route refresh / Cisco route refresh / enhanced route refresh flags,
+    4-octet AS, extended next hop triples, add-path): the header length is the size, the
+    optional-parameter length is what follows, every parameter and capability length is its
+    value, the capability values have the size their RFC fixes - or construction fails (a value
+    that does not fit its field, more than 255 octets of parameters). *)
+Theorem C08_open_valid : forall version asn hold id c m,
+  open_construct version asn hold id c = Ok m -> valid_msg m = true.
+Proof. exact open_construct_valid. Qed.
+Print Assumptions C08_open_valid.
+Example C08_open_nonvacuous : exists m,
+  open_construct 4 4200000000 180 167772161
+    (mkcfg (Some [(1, 1); (2, 128)]) true true false (Some [(1, 1, 2)]) 3 true) = Ok m /\
+  len m = 83 /\ valid_msg m = true.
+Proof. exact open_construct_example. Qed.
+
+(** the same for every reference OPEN (spec/RefOpen.v, any packaging of capabilities into
+    parameters, graceful restart / LLGR / unknown capabilities included) *)
+Theorem C08_open_reference_valid : forall version my_as hold id params,
+  version < 256 -> params_wf params -> Forall (Forall cap_good) params ->
+  valid_msg (ref_open version my_as hold id params) = true.
+Proof. exact ref_open_valid. Qed.
+Print Assumptions C08_open_reference_valid.
+Example C08_open_reference_nonvacuous :
+  let ps := [[Mp 1 1; As4 4200000000]; [GracefulRestart 8 120 [(1, 1, 128)]; Llgr [(1, 1, 0, 3600)]; RefOpen.Unknown 200 [1; 2]]] in
+  params_wf ps /\ Forall (Forall cap_good) ps /\ valid_msg (ref_open 4 23456 180 1 ps) = true.
+Proof.
+  cbv zeta. split; [|split; [|vm_compute; reflexivity]].
+  - split; [|apply OpenProofs.params_fit_total; vm_compute; discriminate].
+    repeat constructor; cbn; try lia; intuition discriminate.
+  - repeat constructor; cbn; try lia; try discriminate; intuition discriminate.
+Qed.
+(** rejected: optional-parameter length, parameter length, capability length one off; a
+    4-octet-AS capability of two octets *)
+Example C08_ex_open_near_misses :
+  let good := marker16 ++ [0; 45; 1; 4; 253; 233; 0; 180; 10; 0; 0; 1; 16;
+                           2; 6; 1; 4; 0; 1; 0; 1;  2; 6; 65; 4; 0; 0; 253; 233] in
+  valid_msg good = true /\
+  valid_msg (marker16 ++ [0; 45; 1; 4; 253; 233; 0; 180; 10; 0; 0; 1; 15;
+                          2; 6; 1; 4; 0; 1; 0; 1;  2; 6; 65; 4; 0; 0; 253; 233]) = false /\
+  valid_msg (marker16 ++ [0; 45; 1; 4; 253; 233; 0; 180; 10; 0; 0; 1; 16;
+                          2; 6; 1; 4; 0; 1; 0; 1;  2; 7; 65; 4; 0; 0; 253; 233]) = false /\
+  valid_msg (marker16 ++ [0; 45; 1; 4; 253; 233; 0; 180; 10; 0; 0; 1; 16;
+                          2; 6; 1; 4; 0; 1; 0; 1;  2; 6; 65; 3; 0; 0; 253; 233]) = false /\
+  valid_msg (marker16 ++ [0; 45; 1; 4; 253; 233; 0; 180; 10; 0; 0; 1; 16;
+                          2; 6; 1; 4; 0; 1; 0; 1;  2; 6; 69; 4; 0; 0; 253; 233]) = true /\
+  valid_msg (marker16 ++ [0; 43; 1; 4; 253; 233; 0; 180; 10; 0; 0; 1; 14;
+                          2; 6; 1; 4; 0; 1; 0; 1;  2; 4; 65; 2; 253; 233]) = false.
+Proof. exact open_near_misses. Qed.
+
+(* ------------------------------------------------------------------------------------- *)
+(** * 5. the whole UPDATE *)
+
+(** [attr_block c ty b] (spec/Walker.v): [b] is exactly one attribute of type [ty] - flags fitting
+    the RFC category of [ty], 1-octet length without / 2-octet length with the extended-length
+    bit, a value of exactly that size that the walker accepts for [ty], every octet an octet.
+    A block is a valid attribute field on its own ... *)
+Theorem C08_attr_block_valid : forall c ty b, attr_block c ty b -> valid_attrs c b = true /\ wf_bytes b.
+Proof. exact attr_block_valid_wf. Qed.
+Print Assumptions C08_attr_block_valid.
+(** ... and blocks with pairwise different type codes, concatenated, are one. *)
+Theorem C08_attr_blocks_valid : forall c (l : list (N * bytes)),
+  Forall (fun p => attr_block c (fst p) (snd p)) l -> NoDup (map fst l) ->
+  valid_attrs c (concat (map snd l)) = true /\ wf_bytes (concat (map snd l)).
+Proof. exact attr_blocks_valid. Qed.
+Print Assumptions C08_attr_blocks_valid.
+
+(** Update.construct_attributes on a dictionary (every key once) of the twelve modelled
+    attributes: a valid attribute field *)
+Theorem C08_update_attributes_valid : forall asn4 ap cr l ad, NoDup (map fst l) ->
+  construct_attributes asn4 l = Ok ad -> valid_attrs (mkw asn4 ap cr) ad = true /\ wf_bytes ad.
+Proof. exact construct_attributes_valid. Qed.
+Print Assumptions C08_update_attributes_valid.
+
+(** ASSEMBLY, any session context [c]: valid withdrawn routes, a valid attribute field and valid
+    NLRI, put together by Update.construct's framing (2-octet lengths, 19-octet header), are a
+    structurally valid UPDATE exactly when the message is not longer than 4096 octets *)
+Theorem C08_update_assembly : forall c wd ad nd b,
+  wf_bytes wd -> wf_bytes ad -> wf_bytes nd ->
+  valid_prefixes4 c wd = true -> valid_attrs c ad = true -> valid_prefixes4 c nd = true ->
+  header c_MSG_UPDATE (construct_body wd ad nd) = Ok b ->
+  (valid_msg_with c b = true <-> len b <= 4096).
+Proof. exact update_assembly. Qed.
+Print Assumptions C08_update_assembly.
+
+(** hence: an UPDATE assembled from ANY attribute blocks with pairwise different type codes - the
+    standard attributes of section 3, the MP attributes of section 6, the community attributes of
+    section 7 - around valid prefix fields *)
+Theorem C08_update_of_blocks : forall c wd (l : list (N * bytes)) nd b,
+  wf_bytes wd -> wf_bytes nd -> valid_prefixes4 c wd = true -> valid_prefixes4 c nd = true ->
+  Forall (fun p => attr_block c (fst p) (snd p)) l -> NoDup (map fst l) ->
+  header c_MSG_UPDATE (construct_body wd (concat (map snd l)) nd) = Ok b ->
+  (valid_msg_with c b = true <-> len b <= 4096).
+Proof. exact update_of_blocks. Qed.
+Print Assumptions C08_update_of_blocks.
+
+(** Full statement (false: known finding C08-oversize, see [C08_update_refuted]). *)
+Definition C08_update_valid_statement : Prop := forall asn4 cr m b,
+  NoDup (map fst (u_attrs m)) -> construct asn4 m = Ok (Some b) ->
+  valid_msg_with (mkw asn4 false cr) b = true.
+(** proved: Update.construct's result is valid exactly when it fits the 4096-octet maximum, which
+    the code never checks.  [NoDup] is the type invariant of a Python dict. *)
+Theorem C08_update_valid_partial : forall asn4 cr m b,
+  NoDup (map fst (u_attrs m)) -> construct asn4 m = Ok (Some b) ->
+  (valid_msg_with (mkw asn4 false cr) b = true <-> len b <= 4096).
+Proof. exact update_construct_valid. Qed.
+Print Assumptions C08_update_valid_partial.
+Theorem C08_update_refuted : exists asn4 m b,
+  NoDup (map fst (u_attrs m)) /\ construct asn4 m = Ok (Some b) /\
+  valid_msg_with (mkw asn4 false false) b = false /\ len b = 4423.
+Proof. exact update_construct_oversize. Qed.
+Print Assumptions C08_update_refuted.
+Example C08_update_nonvacuous : exists b,
+  construct true
+    (mkUpd [(167772160, 8); (0, 0)]
+           [(1, VNum 0); (2, VPath [(2, repeat 7 64); (1, repeat 9 64)]); (3, VNum 167772161);
+            (16, VExts [(2, [65001; 100]); (1537, [1; 1000])]); (32, VLarge [[1; 2; 3]; [4294967295; 0; 7]])]
+           [(3232235776, 23); (167837696, 17)]) = Ok (Some b) /\
+  NoDup [1; 2; 3; 16; 32] /\ len b = 611 /\ valid_msg_with (mkw true false false) b = true.
+Proof. exact update_construct_example. Qed.
+(** rejected: a repeated attribute, an attribute length one off, EXTENDED COMMUNITIES of 7
+    octets, empty LARGE COMMUNITIES, LARGE COMMUNITIES of 8 octets *)
+Example C08_ex_update_near_misses :
+  valid_attrs cfg0 [64; 1; 1; 0; 64; 3; 4; 10; 0; 0; 1] = true /\
+  valid_attrs cfg0 [64; 1; 1; 0; 64; 3; 4; 10; 0; 0; 1; 64; 1; 1; 0] = false /\
+  valid_attrs cfg0 [64; 1; 1; 0; 64; 3; 5; 10; 0; 0; 1] = false /\
+  valid_attrs cfg0 [192; 16; 8; 0; 2; 253; 233; 0; 0; 0; 100] = true /\
+  valid_attrs cfg0 [192; 16; 7; 0; 2; 253; 233; 0; 0; 0] = false /\
+  valid_attrs cfg0 [224; 32; 12; 0; 0; 0; 1; 0; 0; 0; 2; 0; 0; 0; 3] = true /\
+  valid_attrs cfg0 [224; 32; 0] = false /\
+  valid_attrs cfg0 [224; 32; 8; 0; 0; 0; 1; 0; 0; 0; 2] = false.
+Proof. exact update_near_misses. Qed.
+
+(* ------------------------------------------------------------------------------------- *)
+(** * 6. MP_REACH_NLRI / MP_UNREACH_NLRI *)
+From YV Require Import model.YMp model.YPrefix6 model.YLabel model.YVpn model.YLu model.YFlow4
+  proof.MpVpnProofs proof.WalkerMp proof.WalkerFlow.
+(* from here on [Ok] is YMp.Ok *)
+
+(** Every theorem: the attribute is ONE block of type 14 / 15 ([attr_block], hence a valid
+    attribute field by C08_attr_block_valid and usable in C08_attr_blocks_valid): flags 0x90 with a
+    2-octet length equal to the value; AFI, SAFI; next-hop length octet = the next-hop octets,
+    of a size the family has; reserved octet 0; NLRI = well-framed routes to the last octet. *)
+
+(** IPv6 unicast.  [routes6_ok]: prefix lengths up to 128, which netaddr.IPNetwork enforces. *)
+Theorem C08_mp_ipv6_valid : forall c rs, routes6_ok rs = true ->
+  (forall g ll b, reach6u_construct g ll rs = Ok b -> attr_block c c_ATTR_MpReachNLRI_ID b) /\
+  (forall b, unreach6u_construct rs = Ok (Some b) -> attr_block c c_ATTR_MpUnReachNLRI_ID b).
+Proof. exact mp_ipv6_valid. Qed.
+Print Assumptions C08_mp_ipv6_valid.
+Example C08_mp_ipv6_nonvacuous : exists b,
+  reach6u_construct (2 ^ 125) (Some (2 ^ 127 + 1)) [(2 ^ 125, 3); (0, 0); (2 ^ 125 + 5, 128)] = Ok b /\
+  routes6_ok [(2 ^ 125, 3); (0, 0); (2 ^ 125 + 5, 128)] = true /\ len b = 61 /\ valid_attrs cfg0 b = true.
+Proof. exact reach6u_example. Qed.
+
+(** VPNv4 / VPNv6 ([v6]).  Full statement: false for two reasons, see the refutations below. *)
+Definition C08_mp_vpn_valid_statement : Prop := forall c v6 rs,
+  (forall asn an ip b, reachvpn_construct v6 asn an ip rs = Ok b -> attr_block c c_ATTR_MpReachNLRI_ID b) /\
+  (forall b, unreachvpn_construct v6 rs = Ok (Some b) -> attr_block c c_ATTR_MpUnReachNLRI_ID b).
+(** proved under [vroute_ok] = prefix length <= 32 / 128 and a label stack not ending in label 0
+    ([vroute_wd_ok] = the length only: a withdrawal carries the fixed label 0x800000).
+    For IPv6 netaddr enforces the length; for IPv4 nothing does ([C08_mp_prefix4_length_refuted],
+    finding C08-prefix-length-unchecked); a last label 0 is written without the bottom-of-stack
+    bit ([C08_mp_label0_refuted], known finding C08-label0-no-bos).
+    Any number of routes and labels, every RD type, every address. *)
+Theorem C08_mp_vpn_valid_partial : forall c v6 rs,
+  (forallb (vroute_ok v6) rs = true -> forall asn an ip b,
+     reachvpn_construct v6 asn an ip rs = Ok b -> attr_block c c_ATTR_MpReachNLRI_ID b) /\
+  (forallb (vroute_wd_ok v6) rs = true -> forall b,
+     unreachvpn_construct v6 rs = Ok (Some b) -> attr_block c c_ATTR_MpUnReachNLRI_ID b).
+Proof. exact mp_vpn_valid. Qed.
+Print Assumptions C08_mp_vpn_valid_partial.
+Example C08_mp_vpn_nonvacuous :
+  (exists b, reachvpn_construct false 0 0 167772161 ex_vroutes = Ok b /\
+             forallb (vroute_ok false) ex_vroutes = true /\ len b = 68 /\ valid_attrs cfg0 b = true) /\
+  (exists b, unreachvpn_construct true [mk_vroute [] (RdAs 100 100) (2 ^ 125) 61] = Ok (Some b) /\
+             forallb (vroute_wd_ok true) [mk_vroute [] (RdAs 100 100) (2 ^ 125) 61] = true /\
+             valid_attrs cfg0 b = true).
+Proof. exact (conj reachvpn_example unreachvpn_example). Qed.
+
+(** labeled unicast, IPv4 and IPv6: same guards, same refutations *)
+Definition C08_mp_lu_valid_statement : Prop := forall c v6 rs,
+  (forall ip b, reachlu_construct v6 ip rs = Ok (Some b) -> attr_block c c_ATTR_MpReachNLRI_ID b) /\
+  (forall b, unreachlu_construct v6 rs = Ok (Some b) -> attr_block c c_ATTR_MpUnReachNLRI_ID b).
+Theorem C08_mp_lu_valid_partial : forall c v6 rs,
+  (forallb (lroute_ok v6) rs = true -> forall ip b,
+     reachlu_construct v6 ip rs = Ok (Some b) -> attr_block c c_ATTR_MpReachNLRI_ID b) /\
+  (forallb (lroute_wd_ok v6) rs = true -> forall b,
+     unreachlu_construct v6 rs = Ok (Some b) -> attr_block c c_ATTR_MpUnReachNLRI_ID b).
+Proof. exact mp_lu_valid. Qed.
+Print Assumptions C08_mp_lu_valid_partial.
+Example C08_mp_lu_nonvacuous : exists b,
+  reachlu_construct true (2 ^ 125 + 1) ex_lroutes = Ok (Some b) /\ forallb (lroute_ok true) ex_lroutes = true /\
+  valid_attrs cfg0 b = true.
+Proof. exact reachlu_example. Qed.
+
+(** a last label 0: no bottom-of-stack bit, the walker (like a receiver) reads on into the RD /
+    the prefix (known finding C08-label0-no-bos) *)
+Theorem C08_mp_label0_refuted :
+  (exists b, reachvpn_construct false 0 0 167772161 [mk_vroute [0] (RdAs 100 1) 167772160 8] = Ok b /\
+             valid_attrs cfg0 b = false) /\
+  (exists b, reachlu_construct false 167772161 [mk_lroute [0] 3221225472 8] = Ok (Some b) /\
+             valid_attrs cfg0 b = false).
+Proof. exact mp_label0_refuted. Qed.
+Print Assumptions C08_mp_label0_refuted.
+
+(** IPv4 flow specification.  Full statement: false, see the refutation. *)
+Definition C08_mp_flow4_valid_statement : Prop := forall c fs,
+  (forall nh b, reachfs_construct nh fs = Ok (Some b) -> attr_block c c_ATTR_MpReachNLRI_ID b) /\
+  (forall b, unreachfs_construct fs = Ok (Some b) -> attr_block c c_ATTR_MpUnReachNLRI_ID b).
+(** proved under [flow_ok]: destination / source prefix length <= 32 (not enforced by the code:
+    [C08_mp_prefix4_length_refuted]) and comparison bits within LT|GT|EQ (all that
+    construct_operator_flag can set).  Every number of rules, components and operators, every
+    operand size, both forms of the rule length. *)
+Theorem C08_mp_flow4_valid_partial : forall c fs, forallb flow_ok fs = true ->
+  (forall nh b, reachfs_construct nh fs = Ok (Some b) -> attr_block c c_ATTR_MpReachNLRI_ID b) /\
+  (forall b, unreachfs_construct fs = Ok (Some b) -> attr_block c c_ATTR_MpUnReachNLRI_ID b).
+Proof. exact mp_flow4_valid. Qed.
+Print Assumptions C08_mp_flow4_valid_partial.
+Example C08_mp_flow4_nonvacuous : exists b,
+  unreachfs_construct [ex_long_flow; ex_flow] = Ok (Some b) /\ forallb flow_ok [ex_long_flow; ex_flow] = true /\
+  len b = 273 /\ valid_attrs cfg0 b = true.
+Proof. exact unreachfs_example. Qed.
+
+(** An IPv4 prefix length above 32 (finding C08-prefix-length-unchecked): NLRI.construct_prefix_v4
+    (VPNv4, labeled unicast) and IPv4FlowSpec.construct_prefix take the length from int(text) and
+    check nothing - the length octet announces more octets than the four that are written.
+    10.0.0.0/40 as VPNv4 / labeled route, announced and withdrawn; 192.96.3.0/33 as flow
+    specification destination, announced and withdrawn. *)
+Theorem C08_mp_prefix4_length_refuted :
+  ((exists b, reachvpn_construct false 0 0 167772161 [mk_vroute [25] (RdAs 100 100) 167772160 40] = Ok b /\
+              valid_attrs cfg0 b = false) /\
+   (exists b, unreachvpn_construct false [mk_vroute [25] (RdAs 100 100) 167772160 40] = Ok (Some b) /\
+              valid_attrs cfg0 b = false) /\
+   (exists b, reachlu_construct false 167772161 [mk_lroute [25] 167772160 40] = Ok (Some b) /\
+              valid_attrs cfg0 b = false) /\
+   (exists b, unreachlu_construct false [mk_lroute [25] 167772160 40] = Ok (Some b) /\
+              valid_attrs cfg0 b = false)) /\
+  (exists b, reachfs_construct None [mk_flow (Some (3227517696, 33)) None []] = Ok (Some b) /\
+             valid_attrs cfg0 b = false) /\
+  (exists b, unreachfs_construct [mk_flow (Some (3227517696, 33)) None []] = Ok (Some b) /\
+             valid_attrs cfg0 b = false).
+Proof. exact mp_prefix4_length_refuted. Qed.
+Print Assumptions C08_mp_prefix4_length_refuted.
+(** an UPDATE of ORIGIN, an empty AS_PATH, an IPv6 MP_REACH_NLRI and an IPv4 flow-specification
+    MP_UNREACH_NLRI (C08_update_of_blocks applies: the four blocks have different type codes) *)
+Example C08_update_with_mp_nonvacuous : exists r u m,
+  reach6u_construct (2 ^ 125) None [(2 ^ 125, 3); (2 ^ 125 + 5, 128)] = Ok r /\
+  unreachfs_construct [ex_flow] = Ok (Some u) /\
+  YMsg.header c_MSG_UPDATE (construct_body [] (concat (map snd [(1, [64; 1; 1; 0]); (2, [64; 2; 0]); (14, r); (15, u)])) [])
+    = YMsg.Ok m /\
+  NoDup (map fst [(1, [64; 1; 1; 0]); (2, [64; 2; 0]); (14, r); (15, u)]) /\ len m = 104 /\ valid_msg m = true.
+Proof.
+  do 3 eexists. split; [vm_compute; reflexivity|]. split; [vm_compute; reflexivity|].
+  split; [vm_compute; reflexivity|]. split; [|split; vm_compute; reflexivity].
+  repeat constructor; cbn; intuition discriminate.
+Qed.
+
+(** rejected MP attributes: next-hop length octet one off, reserved octet 1, a 5-octet next hop,
+    a labeled route one octet short, a 1-octet length under the extended-length flag; flow
+    specification: rule length one off, prefix component one octet short, no end-of-list bit,
+    operand size not what the length bits say, prefix length 33 *)
+Example C08_ex_mp_near_misses :
+  valid_attrs cfg0 [144; 14; 0; 30; 0; 2; 1; 16; 32; 0; 0; 0; 0; 0; 0; 0; 0; 0; 0; 0; 0; 0; 0; 1; 0; 64; 32; 1; 13; 184; 0; 0; 0; 1] = true /\
+  valid_attrs cfg0 [144; 14; 0; 30; 0; 2; 1; 15; 32; 0; 0; 0; 0; 0; 0; 0; 0; 0; 0; 0; 0; 0; 0; 1; 0; 64; 32; 1; 13; 184; 0; 0; 0; 1] = false /\
+  valid_attrs cfg0 [144; 14; 0; 30; 0; 2; 1; 16; 32; 0; 0; 0; 0; 0; 0; 0; 0; 0; 0; 0; 0; 0; 0; 1; 1; 64; 32; 1; 13; 184; 0; 0; 0; 1] = false /\
+  valid_attrs cfg0 [144; 14; 0; 19; 0; 2; 1; 5; 10; 0; 0; 1; 9; 0; 64; 32; 1; 13; 184; 0; 0; 0; 1] = false /\
+  valid_attrs cfg0 [144; 15; 0; 7; 0; 1; 4; 32; 128; 0; 0] = false /\
+  valid_attrs cfg0 [144; 15; 0; 8; 0; 1; 4; 32; 128; 0; 0; 10] = true /\
+  valid_attrs cfg0 [144; 15; 8; 0; 1; 4; 32; 128; 0; 0; 10] = false /\
+  valid_attrs cfg0 [144; 15; 0; 12; 0; 1; 133; 8; 1; 24; 192; 96; 3; 3; 129; 6] = true /\
+  valid_attrs cfg0 [144; 15; 0; 12; 0; 1; 133; 7; 1; 24; 192; 96; 3; 3; 129; 6] = false /\
+  valid_attrs cfg0 [144; 15; 0; 11; 0; 1; 133; 7; 1; 24; 192; 96; 3; 129; 6] = false /\
+  valid_attrs cfg0 [144; 15; 0; 12; 0; 1; 133; 8; 1; 24; 192; 96; 3; 3; 1; 6] = false /\
+  valid_attrs cfg0 [144; 15; 0; 12; 0; 1; 133; 8; 1; 24; 192; 96; 3; 3; 145; 6] = false /\
+  valid_attrs cfg0 [144; 15; 0; 10; 0; 1; 133; 6; 1; 33; 192; 96; 3; 0] = false.
+Proof. vm_compute. repeat split. Qed.
+
+(* ------------------------------------------------------------------------------------- *)
+(** * 7. COMMUNITIES, EXTENDED COMMUNITIES, LARGE COMMUNITIES from API text *)
+From Coq Require Import String ZArith.
+From YV Require Import lib.Dec model.YExtCom model.YCommunity model.YLargeCom proof.WalkerCom.
+Open Scope N_scope.
+(* from here on [Ok] is YExtCom.Ok *)
+
+(** Community.construct on ANY list of texts: one block, flags 0xc0, length = 4 * number of
+    communities; ExtCommunity.construct on ANY list of items: a multiple of 8 octets, never empty;
+    LargeCommunity.construct on ANY list of texts: a non-zero multiple of 12 octets - or an
+    error (unparsable text, a part that does not fit its field, more than 255 octets) *)
+Theorem C08_communities_text_valid : forall c,
+  (forall l b, com_construct l = Ok b -> attr_block c c_ATTR_Community_ID b) /\
+  (forall l b, ec_construct l = Ok (Some b) -> attr_block c c_ATTR_ExtCommunity_ID b) /\
+  (forall l b, large_construct l = Ok b -> attr_block c c_ATTR_LargeCommunity_ID b).
+Proof. exact communities_text_valid. Qed.
+Print Assumptions C08_communities_text_valid.
+Example C08_community_text_nonvacuous :
+  (exists b, com_construct [codes "65001:100"; codes "no_export"; codes "0:0"] = Ok b /\
+             b = [192; 8; 12; 253; 233; 0; 100; 255; 255; 255; 1; 0; 0; 0; 0] /\ valid_attrs cfg0 b = true) /\
+  (exists b, large_construct [codes "4200000000:1:2"; codes "1:2:4294967295"] = Ok b /\ len b = 27 /\
+             valid_attrs cfg0 b = true) /\
+  (exists b, ec_construct [ItS c_BGP_EXT_COM_RT_0 (codes "65001:100");
+                           ItS c_BGP_EXT_COM_EVPN_ROUTE_MAC (codes "00-11-22-33-44-55");
+                           ItII c_BGP_EXT_COM_EVPN_ESI_MPLS_LABEL 1 1000; ItS 39321 (codes "x")] = Ok (Some b) /\
+             len b = 27 /\ valid_attrs cfg0 b = true).
+Proof. exact (conj com_construct_example (conj large_construct_example ec_construct_example)). Qed.
